@@ -113,7 +113,8 @@ fn same_value(a: &str, b: &str) -> bool {
 }
 
 fn significant(nodes: &[Node]) -> Vec<&Node> {
-    nodes.iter().filter(|n| !matches!(n, Node::Text(t) if t.trim().is_empty())).collect()
+    // (comments are not part of the property: it speaks of elements, attributes, text and tree position)
+    nodes.iter().filter(|n| !matches!(n, Node::Text(t) if t.trim().is_empty()) && !matches!(n, Node::Comment(_))).collect()
 }
 
 /// Compare an input element with the output element; `root` allows the synthesised root attributes.
@@ -200,6 +201,9 @@ fn check(doc: &str, leg: &str, class: &str) -> CaseResult {
         if class == "special/defs" && doc.contains("<circle id=\"tc\"") && v.clause == "not-preserved" && v.detail.contains("<use>: attribute x=") {
             v.signature = "C04/use-of-centred-shape-repositioned".into();
         }
+        if leg == "references" && (class.contains("/circle/") || class.contains("/ellipse/")) && v.clause == "not-preserved" && (v.detail.contains("<use>: attribute x=") || v.detail.contains("<use>: attribute y=")) {
+            v.signature = "C04/use-of-centred-shape-repositioned".into();
+        }
         if class.starts_with("line-omitted-coordinate/") && v.clause == "not-preserved" && v.detail.contains("was added") {
             v.signature = "C04/line-omitted-coordinate-not-defaulted-to-zero".into();
         }
@@ -282,7 +286,7 @@ pub fn run(tier: Tier) -> i32 {
     #[allow(unused_variables)]
     let deep = tier == Tier::Thorough;
     let tier = Tier::Thorough;
-    rep.set("rule", json!("(values) 19 SVG 1.1 elements with geometry attributes, each in its standard context (gradients with stops inside defs, filter primitives inside filter, tspan inside text, use with its target, ...), x each of its numeric attributes x 11 number spellings (sign, leading/trailing dot, exponents, leading zero) x 10 units, inside a root <svg> and as a fragment; every element x 18 presentation/generic attributes. (paths) all sequences of <= 2 (thorough 3) of the 20 path commands after an initial moveto x 5 argument spellings (spaces, commas, sign/dot-separated, implicit repetition, packed arc flags / newlines); points lists and transform lists in their separator/arity variants. (structure) every parent/child pair of a 16 x 20 container/content table, author style/title/desc text, foreign content, use with href and xlink:href. Oracle: transform Ok and the output element tree equals the input tree - same names, positions, attribute sets and values (numbers and number lists compared numerically to 3 decimals, everything else exactly), same character data - apart from synthesised root attributes; character-only content of a shape or text element is expected as generated text. Non-trivial = accepted and preserved."));
+    rep.set("rule", json!("(values) 19 SVG 1.1 elements with geometry attributes, each in its standard context (gradients with stops inside defs, filter primitives inside filter, tspan inside text, use with its target, ...), x each of its numeric attributes x 11 number spellings (sign, leading/trailing dot, exponents, leading zero) x 10 units, inside a root <svg> and as a fragment; every element x 18 presentation/generic attributes. (paths) all sequences of <= 2 (thorough 3) of the 20 path commands after an initial moveto x 5 argument spellings (spaces, commas, sign/dot-separated, implicit repetition, packed arc flags / newlines); points lists and transform lists in their separator/arity variants. (structure) every parent/child pair of a 16 x 20 container/content table, author style/title/desc text, foreign content, use with href and xlink:href. (references) 12 target kinds x 6 size spellings x 8 id spellings (XML names such as a.b, ns:b, non-ASCII) x 5 use forms x {defs, sibling, forward, nested namespaced svg}; 8 IRI forms x 8 referencing elements. (white space) every table element with start/end tags around 6 kinds of layout white space, and shapes without a user-unit box. (text positioning) dx/dy/x/y lists on tref, altGlyph, tspan, glyphRef, feDropShadow. Oracle: transform Ok and the output element tree equals the input tree - same names, positions, attribute sets and values (numbers and number lists compared numerically to 3 decimals, everything else exactly), same character data - apart from synthesised root attributes; character-only content of a shape or text element is expected as generated text. Non-trivial = accepted and preserved."));
     rep.set("also", json!("Also: attributes of the root element itself (presentation attributes, class, id, aria / event attributes) preserved; clip-path / mask / filter / marker values none, inherit and basic shapes; transform lists with white space before the bracket and sign- or dot-separated arguments; <text> with character content under every standard x / y form (absent, number, list, unit, percent, in defs, in a fragment)."));
 
     // ---- (a) values
@@ -443,6 +447,107 @@ pub fn run(tier: Tier) -> i32 {
     let st = run_space(rdocs.len(), |i| check(&rdocs[i].0, "root", &rdocs[i].1));
     rep.sample(json!({"leg": "root", "doc": rdocs[rdocs.len() / 2].0}));
     rep.absorb("root", st);
+
+    // ---- (e) references: every target kind x size spelling x id spelling x referencing form
+    let targets: &[(&str, &str)] = &[
+        // (element, attributes with @ standing for the size spelling)
+        ("rect", "x=\"0\" y=\"0\" width=\"@\" height=\"@\""), ("circle", "cx=\"5\" cy=\"5\" r=\"@\""), ("ellipse", "cx=\"5\" cy=\"5\" rx=\"@\" ry=\"3\""),
+        ("line", "x1=\"@\" y1=\"1\" x2=\"47\" y2=\"15\""), ("image", "href=\"i.png\" width=\"@\" height=\"@\""), ("svg", "width=\"@\" height=\"@\""),
+        ("pattern", "width=\"@\" height=\"4\""), ("symbol", "viewBox=\"0 0 @ 4\""), ("g", "data-n=\"@\""), ("path", "d=\"M0 0 H@\""), ("polygon", "points=\"0,0 @,5 0,5\""), ("text", "x=\"@\" y=\"2\""),
+    ];
+    let sizes: &[&str] = &["10", "100%", "1cm", "70in", "2.5em", "1e1px"];
+    let ids: &[&str] = &["t", "a.b", "ns:b", "a-b", "_x", "\u{e9}t\u{e9}", "t.1-2_3", "X"];
+    let mut edocs: Vec<(String, String)> = Vec::new();
+    for (te, ta) in targets {
+        for sz in sizes {
+            // unit spellings only where the attribute is a length; plain numbers elsewhere
+            if !sz.chars().all(|c| c.is_ascii_digit()) && matches!(*te, "symbol" | "path" | "polygon") {
+                continue;
+            }
+            for id in ids {
+                let tgt = match *te {
+                    "g" | "svg" | "pattern" | "symbol" => format!("<{te} id=\"{id}\" {}><rect x=\"0\" y=\"0\" width=\"2\" height=\"2\"/></{te}>", ta.replace('@', sz)),
+                    "text" => format!("<{te} id=\"{id}\" {}><tspan>t</tspan></{te}>", ta.replace('@', sz)),
+                    _ => format!("<{te} id=\"{id}\" {}/>", ta.replace('@', sz)),
+                };
+                let class = format!("{te}/{}/{}", if sz.chars().all(|c| c.is_ascii_digit()) { "number" } else { "unit" }, if *id == "t" || *id == "X" || *id == "_x" || *id == "a-b" { "plain-id" } else { "xml-name-id" });
+                for (ri, r) in ["<use href=\"#ID\"/>", "<use href=\"#ID\" x=\"1\" y=\"2\"/>", "<use xlink:href=\"#ID\" x=\"1\" y=\"2\" width=\"8\" height=\"8\"/>", "<clipPath id=\"cp\"><use href=\"#ID\"/></clipPath><polyline points=\"1,2 3,4\" clip-path=\"url(#cp)\"/>", "<g><use href=\"#ID\" transform=\"translate(3)\"/></g>"].iter().enumerate() {
+                    let r = r.replace("ID", id);
+                    edocs.push((format!("<svg><defs>{tgt}</defs>{r}</svg>"), format!("use{ri}/defs/{class}")));
+                    if ri < 2 {
+                        edocs.push((format!("<svg>{tgt}{r}</svg>"), format!("use{ri}/sibling/{class}")));
+                        edocs.push((format!("<svg>{r}{tgt}</svg>"), format!("use{ri}/forward/{class}")));
+                        // the target inside a nested SVG document fragment carrying the namespace (an icon pasted in)
+                        edocs.push((format!("<svg><svg xmlns=\"http://www.w3.org/2000/svg\" width=\"10\" height=\"10\">{tgt}</svg>{r}</svg>"), format!("use{ri}/in-namespaced-svg/{class}")));
+                    }
+                }
+            }
+        }
+    }
+    // references that are not same-document element references are plain IRIs
+    for (k, h) in ["sprites.svg#icon", "http://example.com/lib.svg#i", "other.svg", "#", "data:image/svg+xml;base64,AAAA", "../up/one.svg#a.b", "#xpointer(id('a'))", "#svgView(viewBox(0,0,5,5))"].iter().enumerate() {
+        for (ei, e) in ["<use href=\"H\" x=\"1\" y=\"2\"/>", "<use xlink:href=\"H\"/>", "<image href=\"H\" x=\"0\" y=\"0\" width=\"5\" height=\"5\"/>", "<a href=\"H\"><rect x=\"0\" y=\"0\" width=\"5\" height=\"5\"/></a>", "<text x=\"1\" y=\"2\"><textPath href=\"H\">along</textPath></text>", "<defs><linearGradient id=\"lg2\" href=\"H\"/></defs>", "<defs><pattern id=\"pt2\" xlink:href=\"H\"/></defs>", "<rect x=\"0\" y=\"0\" width=\"5\" height=\"5\" clip-path=\"url(H)\" fill=\"url(H)\"/>"].iter().enumerate() {
+            if ei == 7 && h.starts_with('#') {
+                continue; // a same-document url(#..) which names no element is an error in SVG itself
+            }
+            edocs.push((format!("<svg>{}</svg>", e.replace('H', h)), format!("iri{k}/el{ei}")));
+        }
+    }
+    // ids of a nested namespaced <svg> referenced through clip-path / mask / fill / marker
+    for (k, d) in [
+        "<svg xmlns=\"http://www.w3.org/2000/svg\" width=\"10\" height=\"10\"><defs><clipPath id=\"cc\"><rect width=\"1\" height=\"1\"/></clipPath></defs></svg><rect x=\"0\" y=\"0\" width=\"5\" height=\"5\" clip-path=\"url(#cc)\"/>",
+        "<svg xmlns=\"http://www.w3.org/2000/svg\" width=\"10\" height=\"10\"><defs><linearGradient id=\"gg\"><stop offset=\"0\" stop-color=\"red\"/></linearGradient></defs></svg><rect x=\"0\" y=\"0\" width=\"5\" height=\"5\" fill=\"url(#gg)\"/>",
+        "<rect x=\"0\" y=\"0\" width=\"5\" height=\"5\" clip-path=\"url(#cc)\"/><svg xmlns=\"http://www.w3.org/2000/svg\" width=\"10\" height=\"10\"><clipPath id=\"cc\"><rect width=\"1\" height=\"1\"/></clipPath></svg>",
+    ].iter().enumerate() {
+        edocs.push((format!("<svg>{d}</svg>"), format!("namespaced-svg-ids/{k}")));
+    }
+    let st = run_space(edocs.len(), |i| check(&edocs[i].0, "references", &edocs[i].1));
+    rep.sample(json!({"leg": "references", "doc": edocs[edocs.len() / 2].0}));
+    rep.absorb("references", st);
+
+    // ---- (f) layout white space (and comments) between the tags of an element is not character content:
+    // every element of the tables written with separate start and end tags
+    let ws: &[&str] = &["\n", " ", "\n    ", "\t\n", "\n<!-- nothing -->\n", "\r\n"];
+    let mut wdocs: Vec<(String, String)> = Vec::new();
+    for (el, _, base) in ELEMENTS {
+        let attrs = attrs_with(base, "data-k", "1");
+        for (wi, w) in ws.iter().enumerate() {
+            for root in [true, false] {
+                let doc = wrap(el, &attrs, root);
+                // turn the element's own empty tag into a start/end pair holding the white space
+                let needle = format!("<{el} {attrs}/>");
+                if !doc.contains(&needle) {
+                    continue;
+                }
+                wdocs.push((doc.replace(&needle, &format!("<{el} {attrs}>{w}</{el}>")), format!("{el}/ws{wi}")));
+            }
+        }
+    }
+    for (k, e) in [
+        "<rect width=\"100%\" height=\"100%\" fill=\"red\">\n</rect>", "<circle r=\"1cm\">\n</circle>", "<path>\n</path>", "<image href=\"i.png\">\n</image>", "<line x2=\"100%\">\n</line>",
+        "<polyline>\n</polyline>", "<path d=\"M0 0L5 5\">\n  <!-- nothing -->\n</path>", "<defs><rect id=\"r\" width=\"1\" height=\"1\"/></defs><use href=\"#r\">\n</use>",
+        "<rect x=\"0\" y=\"0\" width=\"5\" height=\"5\">\n  <title>tip</title>\n</rect>", "<ellipse rx=\"50%\" ry=\"1\">\n\n</ellipse>", "<text x=\"1\" y=\"2\">\n</text>", "<text>\n  <tspan>t</tspan>\n</text>",
+    ].iter().enumerate() {
+        wdocs.push((format!("<svg>{e}</svg>"), format!("no-user-unit-box/{k}")));
+    }
+    let st = run_space(wdocs.len(), |i| check(&wdocs[i].0, "whitespace-content", &wdocs[i].1));
+    rep.sample(json!({"leg": "whitespace-content", "doc": wdocs[wdocs.len() / 2].0}));
+    rep.absorb("whitespace-content", st);
+
+    // ---- (g) dx / dy (and x / y lists) on the other SVG 1.1 text-positioning elements
+    let mut gdocs: Vec<(String, String)> = Vec::new();
+    for el in ["tref", "altGlyph", "tspan", "textPath"] {
+        for (ai, a) in ["dx=\"1\" dy=\"2\"", "dx=\"1 2 3\"", "x=\"1\" y=\"2\" dx=\"3\" dy=\"4\"", "dy=\"1.2em\"", "x=\"1 2\" y=\"3 4\" rotate=\"5\""].iter().enumerate() {
+            let inner = if el == "tref" { format!("<tref xlink:href=\"#t\" {a}/>") } else if el == "altGlyph" { format!("<altGlyph xlink:href=\"#g\" {a}>A</altGlyph>") } else if el == "textPath" { format!("<textPath href=\"#pp\" startOffset=\"3\">p</textPath><tspan {a}>q</tspan>") } else { format!("<tspan {a}>s</tspan>") };
+            gdocs.push((format!("<svg><defs><text id=\"t\" x=\"0\" y=\"0\"><tspan>ref</tspan></text><path id=\"pp\" d=\"M0 0 H9\"/></defs><text x=\"1\" y=\"2\">{inner}</text></svg>"), format!("{el}/a{ai}")));
+        }
+    }
+    for (k, e) in ["<defs><altGlyphDef id=\"g\"><glyphRef xlink:href=\"#gl\" dx=\"1\" dy=\"2\" x=\"3\" y=\"4\"/></altGlyphDef></defs>", "<defs><filter id=\"f\"><feDropShadow dx=\"1\" dy=\"2\" stdDeviation=\"1\"/><feOffset dx=\"1\" dy=\"-2.5\"/></filter></defs>", "<defs><font><glyph unicode=\"a\" horiz-adv-x=\"5\" d=\"M0 0 H5\"/><hkern u1=\"a\" u2=\"b\" k=\"1\"/></font></defs>"].iter().enumerate() {
+        gdocs.push((format!("<svg>{e}</svg>"), format!("other/{k}")));
+    }
+    let st = run_space(gdocs.len(), |i| check(&gdocs[i].0, "text-positioning", &gdocs[i].1));
+    rep.sample(json!({"leg": "text-positioning", "doc": gdocs[gdocs.len() / 2].0}));
+    rep.absorb("text-positioning", st);
 
     // ---- (d) the documented reinterpretation: character-only content becomes generated text
     let tdocs = [
